@@ -389,6 +389,15 @@ class SpecEval:
                 prq = self.e.lift(self.e.spec_getattr(pr, "required"))
                 a = f"(ite (truthy {asV(ex)}) (seqof {asV(ex)}) (as seq.empty (Seq V)))"
                 b = f"(ite (truthy {asV(pr)}) (seqof {asV(prq)}) (as seq.empty (Seq V)))"
+                if not getattr(self, "bound_vars", ()):
+                    # lemma CONCAT-ALL (spec/lemmas/concat_all.smt2) instantiated at these two sequences with P := is_str
+                    j = fresh_name("cj")
+                    allp = lambda s: f"(forall (({j} Int)) (=> (and (<= 0 {j}) (< {j} (seq.len {s}))) (k_str (seq.nth {s} {j}))))"
+                    inst = f"(=> (and {allp(a)} {allp(b)}) {allp(f'(seq.++ {a} {b})')})"
+                    if inst.replace(j, "J") not in [g.replace(j, "J") for g in getattr(self.e, "_concat_all_seen", [])]:
+                        self.e._concat_all_seen = getattr(self.e, "_concat_all_seen", []) + [inst]
+                        self.e.globals_assumed.append(inst)
+                        self.e.lemma_instances_used.add("CONCAT-ALL")
                 return Val(f"(v_list (seq.++ {a} {b}))", kind="list")
             if f == "has_unsupported":
                 # the *documented* list (docs/ + property statement), not the live constant: a shrunk constant must be noticed
@@ -417,6 +426,15 @@ class SpecEval:
                 s = asV(self.ev(n.args[0]))
                 x = asV(self.ev(n.args[1]))
                 return mkB(f"(and (k_set {s}) (seq_has_pyeq (sitems {s}) (v_int (py_id {x})) 0))")
+            if f == "forall_v":
+                # universal quantification over all values
+                lam = n.args[0]
+                assert isinstance(lam, ast.Lambda)
+                var = lam.args.args[0].arg
+                q = fresh_name("v" + var)
+                sub = SpecEval(self.e, {**self.env, var: Val(q)}, self.old_env, self.glob, self.old_state)
+                sub.bound_vars = tuple(getattr(self, "bound_vars", ())) + (q,)
+                return mkB(f"(forall (({q} V)) {asB(sub.ev(lam.body))})")
             if f in ("all_members", "some_member"):
                 # quantification over the members of a list, in identity-membership form
                 s = _simp_seqof(f"(seqof {asV(self.ev(n.args[0]))})")
